@@ -113,7 +113,7 @@ impl Prop for C07 {
         "C07"
     }
     fn cases(&self, ctx: &Ctx) -> u64 {
-        ctx.tier.pick(2500, 50_000)
+        ctx.tier.pick(25_000, 300_000)
     }
     fn rule(&self) -> &'static str {
         "grammar programs with 1-3 `pasfmt off`..`pasfmt on` regions whose boundaries fall between any two tokens (inside expressions, before end of file, unclosed), all toggle spellings (//, {}, (* *), any letter case, extra blanks, trailing reason) and look-alikes that must not toggle; region content is made ugly on purpose (upper-case keywords, odd gaps, tabs, CRLF, blank-line runs, comments, directives, multi-line strings); asm blocks with instruction lines; the code outside the regions is laid out randomly; x sampled configurations. Oracles: the region's bytes occur unchanged at the place given by the count of preceding non-blank characters; asm instruction text unchanged; whitespace outside regions is canonical (so the rest was formatted); look-alikes do not switch formatting off. Non-trivial: region with >= 3 tokens whose formatting alone would change it; distinct by hash of (region text, configuration)."
